@@ -75,14 +75,21 @@ func (m *Mutex) Unlock() {
 // RWMutex
 
 type RWMutex struct {
-	real    stdsync.RWMutex
-	writer  bool
-	readers int
-	rtag    byte // address of this field keys the readers' release clock
+	real     stdsync.RWMutex
+	writer   bool
+	readers  int
+	pendingW int  // writers that have announced themselves and wait for the readers to drain
+	rtag     byte // address of this field keys the readers' release clock
 }
 
+// Lock follows Go's documented semantics: "a blocked Lock call excludes new
+// readers from acquiring the lock". It is modelled in two steps, like the real
+// implementation: the writer first announces itself (from then on RLock blocks),
+// then waits until the current writer and all current readers are gone. A
+// recursive RLock while a writer is pending therefore deadlocks here as it does
+// in reality.
 func (m *RWMutex) Lock() {
-	s, skip := vsched.SyncPoint("RWMutex.Lock", func() bool { return !m.writer && m.readers == 0 })
+	s, skip := vsched.SyncPoint("RWMutex.Lock.announce", nil)
 	if skip {
 		return
 	}
@@ -90,6 +97,12 @@ func (m *RWMutex) Lock() {
 		m.real.Lock()
 		return
 	}
+	m.pendingW++
+	if _, skip := vsched.SyncPoint("RWMutex.Lock", func() bool { return !m.writer && m.readers == 0 }); skip {
+		m.pendingW--
+		return
+	}
+	m.pendingW--
 	m.writer = true
 	s.Acquire(unsafe.Pointer(m))
 	s.Acquire(unsafe.Pointer(&m.rtag))
@@ -129,7 +142,7 @@ func (m *RWMutex) Unlock() {
 }
 
 func (m *RWMutex) RLock() {
-	s, skip := vsched.SyncPoint("RWMutex.RLock", func() bool { return !m.writer })
+	s, skip := vsched.SyncPoint("RWMutex.RLock", func() bool { return !m.writer && m.pendingW == 0 })
 	if skip {
 		return
 	}
@@ -149,7 +162,7 @@ func (m *RWMutex) TryRLock() bool {
 	if s == nil {
 		return m.real.TryRLock()
 	}
-	if m.writer {
+	if m.writer || m.pendingW > 0 {
 		return false
 	}
 	m.readers++
